@@ -57,6 +57,7 @@ var groupMenu = []group{
 	{"-p", "r", false, 0}, {"-p", "wa", false, 0}, {"-p", "rq", false, 0},
 	{"-w", "/etc/passwd", false, 0}, {"-w", "/tmp/my file", false, 0},
 	{"-D", "", true, 0}, {"", "stray", false, 0}, {"--", "", true, 0}, {"", "/trailing/word", false, 0},
+	{"", "", false, 0}, // the EMPTY word ('' on the line): a word like any other
 }
 
 var ops14 = []string{"<=", ">=", "&=", "!=", "=", "<", ">", "&"}
@@ -454,6 +455,46 @@ func c14Runes(c *enumx.Ctx) {
 	c.Sample("-w '/srv/share/<U+FEFF>reports' -p wa => Path keeps the three bytes EF BB BF")
 }
 
+// c14FValues: every string of <=5 characters over {a, b, '=', ',', '!', '>'} as the value of -F key= / -F
+// path=/ / -C: the value is the COMPLETE text after the first operator - commas, further operators and
+// '=' signs inside it included - and one argument is one filter.
+func c14FValues(c *enumx.Ctx) {
+	alpha := []string{"a", "b", "=", ",", "!", ">"}
+	var rec func(cur string, n int)
+	rec = func(cur string, n int) {
+		if cur != "" && c.Mine() {
+			checkLine(c, []group{{Flag: "-a", Arg: "always,exit"}, {Flag: "-F", Arg: "key=" + cur}})
+			checkLine(c, []group{{Flag: "-a", Arg: "always,exit"}, {Flag: "-F", Arg: "path=/" + cur}, {Flag: "-k", Arg: "k"}})
+			checkLine(c, []group{{Flag: "-a", Arg: "always,exit"}, {Flag: "-F", Arg: "uid=0"}, {Flag: "-F", Arg: "exe=" + cur + "/x"}})
+		}
+		if n == 5 {
+			return
+		}
+		for _, a := range alpha {
+			rec(cur+a, n+1)
+		}
+	}
+	rec("", 0)
+	// the empty word at every position of a few lines
+	lines := [][]group{
+		{{Flag: "-w", Arg: "/etc/shadow"}, {Flag: "-p", Arg: "wa"}, {Flag: "-k", Arg: "identity"}},
+		{{Flag: "-a", Arg: "always,exit"}, {Flag: "-S", Arg: "open"}, {Flag: "-F", Arg: "auid>=1000"}, {Flag: "-k", Arg: "access"}},
+		{{Flag: "-D", Bare: true}, {Flag: "-k", Arg: "x"}},
+	}
+	for _, l := range lines {
+		for pos := 0; pos <= len(l); pos++ {
+			for _, w := range []string{"", " ", "''"} {
+				if !c.Mine() {
+					continue
+				}
+				gs := append(append(append([]group{}, l[:pos]...), group{Arg: w}), l[pos:]...)
+				checkLine(c, gs)
+			}
+		}
+	}
+	c.Sample("-a always,exit -F key=team=sec,env=prod => ONE filter key = \"team=sec,env=prod\"")
+}
+
 func c14Lines(c *enumx.Ctx) {
 	maxLen := 3
 	if c.Tier == "thorough" {
@@ -480,4 +521,5 @@ func init() {
 	gens["c14-paths"] = c14Paths
 	gens["c14-syntax"] = c14Syntax
 	gens["c14-runes"] = c14Runes
+	gens["c14-fvalues"] = c14FValues
 }
